@@ -389,6 +389,25 @@ func rulesC12(w *World, r *Report) {
 			cSeq := codecCallSeq(w, fn(w.Cmd, d.helper), "TakeFrom")
 			okF := len(hSeq) == 2 && len(cSeq) == 2 && hSeq[0] == "Header" && cSeq[0] == "Header" && hSeq[1] == cSeq[1] && strings.HasSuffix(hSeq[1], "*")
 			r.Check(okF, "C12.R4", d.name+":framing", w.pos(H.Pos()), "handler writes "+strings.Join(hSeq, ",")+"; client reads "+strings.Join(cSeq, ","), "the handler's encoding sequence ["+strings.Join(hSeq, ",")+"] differs from the client's decoding sequence ["+strings.Join(cSeq, ",")+"] (expected Header then one element per archive)")
+			// one element per archive on both ends, whatever was selected: neither loop has a way round its codec call
+			for _, side := range []struct {
+				f    *ssa.Function
+				meth string
+				what string
+			}{{H, "AppendTo", "handler-encodes-every-archive"}, {fn(w.Cmd, d.helper), "TakeFrom", "client-decodes-every-archive"}} {
+				if side.f == nil {
+					continue
+				}
+				var inLoop ssa.Instruction
+				for _, c := range callsIn(side.f) {
+					if sc := c.Common().StaticCallee(); sc != nil && sc.Name() == side.meth && inLoopWith(c.Block()) {
+						inLoop = c.(ssa.Instruction)
+					}
+				}
+				if inLoop != nil {
+					ruleLoopBodyAlwaysCalls(w, r, "C12.R4", d.name+":"+side.what, inLoop, "the other end writes (reads) one element for every archive of the header, selected or not: skipping one shifts every following element")
+				}
+			}
 		}
 	}
 	r.Rule("C12.R6", "list framing: the items/files handlers write one name per line and the clients split on newlines only; every remote function passes errors on unwrapped", 11)
